@@ -11,6 +11,8 @@ import PnVerif.Model.IntraNode
 
     F isrec begin xsz recsize nd shape.. S start.. C count.. T stride..        (intra-node aggregation: flatten_req)
         -> p=<off:len,...  pairs of IntraNode.flattenReq> e=<element offsets of the request, Access.elemOff in request order>
+    Q recsize nreq { lead isrec begin xsz nd shape.. S start.. C count.. T stride.. }   (flatten_reqs, nonblocking path)
+        -> p=<pairs of IntraNode.flattenReqs> e=<element offsets of the requests in queue order>
     M n off:len ...                                                          (the aggregator's sort/merge/pack/coalesce)
         -> s=<off:len:buf,... sorted triples> a=<merged triples> f=<off:len,... file type>
 
@@ -129,6 +131,43 @@ def doF (l : List String) : String :=
     | _, _, _, _ => "bad-op"
   | _ => "bad-op"
 
+/-- parse `nreq` requests `lead isrec begin xsz nd shape.. S.. C.. T..` -/
+def parseQ (rs : Nat) : Nat → List String → Option (List PnVerif.IntraNode.PReq)
+  | 0, _ => some []
+  | n + 1, _lead :: ir :: bg :: xs :: ndS :: l1 =>
+    match bg.toNat?, xs.toNat?, ndS.toNat? with
+    | some bg, some xs, some nd =>
+      let shape := (l1.take nd).filterMap String.toNat?
+      if shape.length != nd then none else
+      match natVec "S" nd (l1.drop nd) with
+      | none => none
+      | some (st, l2) =>
+        match natVec "C" nd l2 with
+        | none => none
+        | some (ct, l3) =>
+          match natVec "T" nd l3 with
+          | none => none
+          | some (sd, l4) =>
+            match parseQ rs n l4 with
+            | none => none
+            | some qs => some (⟨{ begin := bg, xsz := xs, shape := shape, isRec := b ir, recsize := rs }, st, ct, sd⟩ :: qs)
+    | _, _, _ => none
+  | _, _ => none
+
+def doQ (l : List String) : String :=
+  match l with
+  | rsS :: nS :: rest =>
+    match rsS.toNat?, nS.toNat? with
+    | some rs, some n =>
+      match parseQ rs n rest with
+      | none => "bad-op"
+      | some qs =>
+        let ps := PnVerif.IntraNode.flattenReqs qs
+        let es := qs.flatMap (fun q => (PnVerif.Access.enumIdx q.start q.count q.stride).map (PnVerif.Access.elemOff q.v))
+        s!"p={commaL (ps.map (fun p => s!"{p.1}:{p.2}"))} e={commaL (es.map toString)}"
+    | _, _ => "bad-op"
+  | _ => "bad-op"
+
 def parseOL (s : String) : Option (Int × Int) :=
   match s.splitOn ":" with
   | [a, c] => match a.toInt?, c.toInt? with
@@ -155,6 +194,7 @@ def step (line : String) : String :=
   | "A" :: strict :: classic :: isrec :: isread :: api :: l => doA strict classic isrec isread api l
   | "F" :: l => doF l
   | "M" :: l => doM l
+  | "Q" :: l => doQ l
   | _ => "bad-op"
 
 partial def loop (h : IO.FS.Stream) (out : IO.FS.Stream) : IO Unit := do
